@@ -448,6 +448,13 @@ func H_C09_nested_content_untouched() {
 		results = append(results, l.Filter(func(v any) bool { return true }))
 	case 3:
 		results = append(results, o.Merge(NewObject("z", 1)), o.Merge(o))
+		// receiver and argument both hold an object under the same key: the result takes the argument's, and
+		// neither nested object is written to
+		argIn := NewObject("e", x)
+		arg := NewObject("o", argIn, "m", 7)
+		r := o.Merge(arg)
+		results = append(results, r)
+		verifAssert(r.Get("o") == any(argIn) && argIn.Count() == 1 && arg.Count() == 2 && arg.Get("o") == any(argIn), "Merge prefers the argument's value on a shared key and leaves the argument (and what it holds) unchanged")
 	case 4:
 		results = append(results, o.Pluck("m"), o.Values())
 	case 5:
@@ -456,7 +463,7 @@ func H_C09_nested_content_untouched() {
 		results = append(results, l.Map(func(i int, v any) any { return v }))
 	}
 	verifAssert(l.Get(0) == any(mid) && l.Get(1) == any(midO) && o.Get("m") == any(mid) && o.Get("o") == any(midO), "a deriving operation leaves the receiver's slots holding the identical containers")
-	verifAssert(mid.Get(0) == any(deep) && midO.Get("d") == any(deep) && mid.Count() == 2 && deep.Count() == 1 && deep.GetInt(0) == x, "a deriving operation leaves nested containers of the receiver unchanged (identity and content, two levels down)")
+	verifAssert(mid.Get(0) == any(deep) && midO.Get("d") == any(deep) && mid.Count() == 2 && midO.Count() == 1 && deep.Count() == 1 && deep.GetInt(0) == x, "a deriving operation leaves nested containers of the receiver unchanged (identity and content, two levels down)")
 	var snaps []mval
 	for _, r := range results {
 		snaps = append(snaps, hSnapAny(r))
@@ -468,6 +475,63 @@ func H_C09_nested_content_untouched() {
 	}
 	for i, r := range results {
 		verifAssert(hExact(snaps[i], hSnapAny(r)), "Clear on the receiver does not change a result derived from it (nor the containers the result still holds)")
+	}
+	verifReach("end")
+}
+
+// Sort (and Reverse) as the later mutation: results that share scalar wrappers with the receiver (SubList,
+// Concat, Filter, Map, Clone, typed slices) are not touched when the receiver — or another result — is
+// sorted and then grown again, for every sortable kind.
+func H_C09_sort_after_derive() {
+	verifBound("LISTN", 3)
+	var a List
+	kind := nondetIntRange(0, 2)
+	switch kind {
+	case 0:
+		a = NewList(nondetInt(), nondetInt(), nondetInt())
+	case 1:
+		a = NewList(hFiniteFloat(), hFiniteFloat(), hFiniteFloat())
+	default:
+		a = NewList(hBytesStr(1), hBytesStr(1), hBytesStr(1))
+	}
+	derive := func() List {
+		switch nondetIntRange(0, 5) {
+		case 0:
+			return a.SubList(0, 3)
+		case 1:
+			return a.Concat(NewList())
+		case 2:
+			return NewList().Concat(a)
+		case 3:
+			return a.Filter(func(v any) bool { return true })
+		case 4:
+			return a.Map(func(i int, v any) any { return v })
+		default:
+			return a.Clone()
+		}
+	}
+	r1, r2 := derive(), derive()
+	parties := []List{a, r1, r2}
+	snaps := []mval{hSnapAny(a), hSnapAny(r1), hSnapAny(r2)}
+	who := nondetIntRange(0, 2)
+	if nondetIntRange(0, 3) == 0 {
+		parties[who].Reverse()
+	} else {
+		parties[who].Sort()
+	}
+	// grow again with fresh values of the same kind
+	switch kind {
+	case 0:
+		parties[who].Add(nondetInt(), nondetInt())
+	case 1:
+		parties[who].Add(hFiniteFloat())
+	default:
+		parties[who].Add(hBytesStr(1))
+	}
+	for i, p := range parties {
+		if i != who {
+			verifAssert(hExact(snaps[i], hSnapAny(p)), "mutating one of receiver/argument/result/second result changes none of the others")
+		}
 	}
 	verifReach("end")
 }
